@@ -167,9 +167,9 @@ func e3Prepare(fx *Fixture, rep *Report, shapePkgs []*SrcPkg, builds []dynBuild)
 			}
 			tc := r.Typecheck()
 			_, it, tps := tc.ifaceType(j.c.ifaceNames()[0])
-			if tc.ParseErr != nil || len(tc.Errs) > 0 || it == nil || it.NumMethods() == 0 || (tps != nil && tps.Len() > 0) {
+			if tc.ParseErr != nil || len(tc.Errs) > 0 || it == nil || (tps != nil && tps.Len() > 0) {
 				mu.Lock()
-				skipped++ // does not compile (C01's business), no methods, or generic (dynamic family covers generics)
+				skipped++ // does not compile (C01's business) or generic (dynamic family covers generics)
 				mu.Unlock()
 				return
 			}
@@ -182,7 +182,7 @@ func e3Prepare(fx *Fixture, rep *Report, shapePkgs []*SrcPkg, builds []dynBuild)
 		}()
 	}
 	wg.Wait()
-	rep.Set("shapes_skipped_not_compilable_or_generic_or_empty", skipped)
+	rep.Set("shapes_skipped_not_compilable_or_generic", skipped)
 	sort.Slice(specs, func(i, j int) bool { return specs[i].Label < specs[j].Label })
 	return specs
 }
@@ -267,10 +267,7 @@ func runE3(prop, tier string) int {
 	if err := goBuild(fx, dir, bin); err != nil {
 		// generated code that moq accepted and go/types accepted must compile: this is a C01-class
 		// violation of the tree under test, reported under the property being checked.
-		rep.Violate(&Violation{Diag: "compile: generated mocks do not build", Case: "E3 driver build", Detail: err.Error()})
-		rep.Set("evaluations", 1)
-		rep.Set("distinct_nontrivial", 0)
-		return rep.Finish()
+		fatalf("driver build failed (mocks that go/types accepted, or the harness itself): %v", err)
 	}
 	fmt.Fprintf(os.Stderr, "e3: %d mocks generated and compiled in %.1fs\n", len(specs), time.Since(t0).Seconds())
 	depth, sdepth := 4, 2
